@@ -661,6 +661,18 @@ def c08_shared_with_pairs(seed):
   rnd = random.Random(seed ^ 0x5c08)
   A = gen.A
   x, y, m, n_ = Var('x'), Var('y'), Var('m'), Var('n')
+  if seed % 4 == 3:
+    # an injectible predicate with an aggregating body, injected twice through an intermediate
+    op = rnd.choice(['Min', 'Max', 'Sum'])
+    rules = [Rule('Succ', [x], value=AggE(op, y, Conj([A('E', x, y)]), rnd.choice(['brace', 'combine']))),
+             Rule('Hop', [x, Call('Succ', [x], [])], body=A('G', x)),
+             Rule('T', [x, Call('Succ', [y], [])], body=A('Hop', x, y))]
+    plain = Program(rules, [], gen.EXT)
+    ann = rnd.choice([['@NoInject(Hop);'], ['@With(Hop);'], ['@NoInject(Hop);', '@NoWith(Hop);'], ['@Ground(Hop);']])
+    annotated = Program(rules, ann, gen.EXT)
+    return [dict(a=Side(plain.text(), 'T', label='default plan'), b=Side(annotated.text(), 'T', label='annotated'),
+                 tables=['E', 'G'], K=2, strings_list=[], require_different_sql=True,
+                 label='injected_combine_twice/%s' % ','.join(ann))]
   rules = [Rule('Cc', [x], distinct=True, body=rnd.choice([A('E', x, y), Conj([A('E', x, y), A('G', y)])])),
            Rule('Bb', [x], [('n', Agg(rnd.choice(['Sum', 'Max', 'Count']), y))], distinct=True, body=Conj([A('Cc', x), A('E', x, y)])),
            Rule('Gg', [x], [('m', Agg(rnd.choice(['Max', 'Min', 'Sum']), Var('n')))], distinct=True, body=Atom('Bb', [x], [('n', None)]))]
@@ -995,7 +1007,12 @@ def c17_pairs(seed):
     grounded.append('M2')
   else:
     rules.append(Rule('N', [x, y], body=Conj([M(x, y), A('G', y)])))
-  ann = ['@AttachDatabase("%s", "%s");' % (dataset, DB_PLACEHOLDER)] + ['@Ground(%s);' % g for g in grounded]
+  # a grounded predicate may name its table explicitly: @Ground(P, "dataset.table")
+  table_of = {}
+  for g in grounded:
+    table_of[g] = '%s.%s' % (dataset, g if rnd.random() < 0.65 else g.lower() + '_snapshot')
+  ann = ['@AttachDatabase("%s", "%s");' % (dataset, DB_PLACEHOLDER)] + [
+      ('@Ground(%s);' % g) if table_of[g].endswith('.' + g) else ('@Ground(%s, "%s");' % (g, table_of[g])) for g in grounded]
   prog = Program(rules, ann, ext=gen.EXT)
   plain = Program(rules, [], ext=gen.EXT)
   text = prog.text()
@@ -1008,7 +1025,7 @@ def c17_pairs(seed):
   pairs.append(dict(a=HistorySide(text, ['N'], label='grounded run'), b=Side(plain.text(), 'N', label='no @Ground'),
                     label='rows N %s' % notes, **common))
   for g in grounded:
-    tbl = '%s.%s' % (dataset, g)
+    tbl = table_of[g]
     # after a run of the dependant the table holds exactly what the predicate evaluates to
     pairs.append(dict(a=HistorySide(text, ['N'], ('table', tbl), label='table after run'),
                       b=Side(plain.text(), g, label='predicate alone'),
@@ -1024,8 +1041,8 @@ def c17_pairs(seed):
   hist = rnd.choice([['N', 'N'], ['N', 'M', 'N'], ['N', 'N', 'N']])
   pairs.append(dict(a=HistorySide(text, hist, label='re-run'), b=HistorySide(text, ['N'], label='first run'),
                     label='rerun rows %s %s' % ('>'.join(hist), notes), **common))
-  pairs.append(dict(a=HistorySide(text, hist, ('table', '%s.M' % dataset), label='re-run'),
-                    b=HistorySide(text, ['N'], ('table', '%s.M' % dataset), label='first run'),
+  pairs.append(dict(a=HistorySide(text, hist, ('table', table_of['M']), label='re-run'),
+                    b=HistorySide(text, ['N'], ('table', table_of['M']), label='first run'),
                     label='rerun table %s %s' % ('>'.join(hist), notes), **common))
   return pairs
 
